@@ -68,6 +68,18 @@ CHECKS.update({
    note="programs of <= 2 (thorough: 3 in TLC) sites over flip_enum, flip_mvd, REINFORCE(flip), normal_reparam, REINFORCE(normal) with polynomial returns; batched (parallel-enumeration / vectorised) sites and geometric/uniform/multivariate primitives are not covered; continuous score-function unbiasedness is checked per draw only; the REINFORCE rule is exercised through the public reinforce() factory with scripted samplers, the exported flip_reinforce through seeded runs",
    technique="TLA+ spec (ADEV.tla: CPS interpreter rules vs exact enumeration, rationals) checked by TLC (sum prob*tangent = exact derivative; enumeration exact); every outcome replayed with scripted draws on real @expectation programs; seeded runs matched against the specification's outcome sets",
    text="TLC enumerates every outcome (draws in execution order, probability, primal, tangent) of the CPS estimator for every program and parameter value and proves that the probability-weighted tangents sum to the exact derivative (and primals to the exact value), that enumeration-only programs are exact per outcome; (A) every outcome of the scriptable programs is replayed on the real expectation programs with scripted draws (jvp_estimate and grad_estimate), (B) seeded jit/vmap runs of all discrete programs must only produce (primal, tangent) pairs of the specification's outcome set with means within 6.5 standard errors of the exact derivative, enumeration-only programs key-independent."),
+ "C17": dict(category="model_checking", design_ref="DESIGN.md §4 C17",
+   note="two conjugate instances (Bernoulli/Bernoulli on theta in {1/4,1/2,3/4}; Gaussian/Gaussian with posterior N(3y/4, 1/2)); families: flip_enum / flip_mvd / REINFORCE(flip), mean-field and full-covariance normal (reparam); the Gaussian tightness and bound are float comparisons against closed forms / a 6.5 s.e. mean screen",
+   technique="TLA+ spec (VI.tla: log ring Q[ln2,ln3] for the Bernoulli instance, rationals for the optimisation loop) checked by TLC; every printed case run on the real elbo_factory / optimize_vi / elbo_vi with scripted draws and noise",
+   text="TLC proves, exactly, tightness of the objective at the posterior for every draw, the bound below log p(x) elsewhere, unbiasedness of value and gradient estimates for the three flip families, the sign of the exact gradient (ascent towards the posterior), and the iterates of gradient ascent with zero noise; the real elbo_factory objects are evaluated draw by draw (estimate, jvp_estimate, grad_estimate) against those ring values, optimize_vi / elbo_vi histories must equal the exact rational iterates (sign, step size, history alignment, final = last), the Gaussian objective must equal log p(x) for every scripted noise at the posterior."),
+ "C20": dict(category="model_checking", design_ref="DESIGN.md §4 C20",
+   note="HMM: three models (2x2 dense, 3x3 with zeros, 2 states x 3 symbols), T <= 3, all observation sequences of positive probability; Kalman in TLA+: scalar model, T = 2, three parameter sets; d_obs != d_state and T = 3 are compared with a numpy conditioning oracle (float64) - that part is exploration-level; FFBS by a fixed-key chi-square screen",
+   technique="TLA+ spec (StateSpace.tla: alpha recursion vs brute-force path sums; Kalman / RTS recursion vs conditioning the joint Gaussian, exact rationals) checked by TLC; exported tables compared with forward_filter, compute_sequence_log_prob, the iterated step models, kalman_filter / kalman_smoother",
+   text="TLC proves step by step that the alpha recursion equals brute-force summation over all state sequences and that the scalar Kalman filter / RTS smoother equal conditioning of the joint Gaussian (means, variances, quadratic form and determinant of the log marginal), exactly; the real forward_filter (eager and jit), compute_sequence_log_prob, discrete_hmm and linear_gaussian iterated over time, kalman_filter and kalman_smoother are compared with the exported rationals; backward sampling frequencies are screened against the exact posterior."),
+ "C13": dict(category="exploration", design_ref="DESIGN.md §4 C13, §5",
+   note="one to three exactly representable (parameter, value) points per distribution; sampler laws are 6.5-sigma screens with fixed keys (statistical, outside what a TLA+ model decides); arbitrary parameter values are not covered",
+   technique="exact log-density tables computed by TLC in a log ring (Dists.tla: Q[ln2,ln3,ln5,ln7,ln pi], finite supports summed to one) compared with logpdf / assess / modular_vmap / jit; fixed-key statistical screens of the samplers (sample_shape and vectorised) against documented pmfs / exact quantile probabilities; exact shape and dtype laws",
+   text="The documented parameterisation of each of the 24 exported distributions is written as an exact ring-valued log density at grid points in Dists.tla (TLC checks the finite supports sum to one and the ring arithmetic) and compared with the real logpdf through four call paths, positional and keyword conventions included; samplers are screened (seeded, with sample_shape, vectorised) for shape, dtype and law. Exploration level: the density part is exact at the grid, the sampler part statistical."),
 })
 
 PENDING = {}
